@@ -253,8 +253,8 @@ def kf2_class(src, op):
 def run_case(case, ctx):
     source, module = case["source"], case["module"]
     src = source.get("spec") or source["fam"]["base"]
-    if c07.arms_known_finding(src):
-        raise Discard("input class of a C07 known finding")
+    if c07.arms_known_finding(src) or c07.snapshot_mask(src):
+        raise Discard("input class of a C07 known finding (the source is modified, so later calls differ)")
     other = "defcon" if module == "ufoLib2" else "ufoLib2"
     # reference digests: fresh sources, this process (hash seed 0), in memory
     ref = []
